@@ -137,39 +137,111 @@ class Machine:
 M_RES = Machine('resumable', 'tier_c/m_resumable.cpp', [-1, 0, 0, 2, 2, 0], ['C', 'L', 'C', 'L', 'L', 'L'])
 M_ORTHO = Machine('ortho', 'tier_c/m_ortho.cpp', [-1, 0, 1, 2, 2, 1, 5, 5, 0], ['C', 'O', 'C', 'L', 'L', 'C', 'L', 'L', 'L'], unwind=14); M_ORTHO.root_stub = True
 M_NEST = Machine('nested', 'tier_c/m_nested.cpp', [-1, 0, 1, 2, 2, 1, 0], ['C', 'C', 'C', 'L', 'L', 'L', 'L'], unwind=14)
-MACHINES = [M_RES, M_ORTHO, M_NEST]
+M_SEL = Machine('select', 'tier_c/m_select.cpp', [-1, 0, 0, 2, 2, 4, 4], ['C', 'L', 'C', 'L', 'C', 'L', 'L'], unwind=14)
+MACHINES = [M_RES, M_ORTHO, M_NEST, M_SEL]
 KIND_NAMES = {0: 'change', 1: 'restart', 2: 'resume', 3: 'select', 4: 'utilize', 5: 'randomize', 6: 'schedule'}
 STEP_CARRIERS = [r'R_<.*>::processTransitions', r'R_<.*>::applyRequest', r'RegistryT<.*>::requestImmediate', r'C_<.*>::deepChangeToRequested', r'C_<.*>::deepForwardActive',
                  r'S_<.*>::deepEnter', r'S_<.*>::deepExit', r'C_<.*>::deepEnter', r'C_<.*>::deepExit', r'R_<.*>::approvedByGuards']
-def machine_jobs(m, kinds=(0, 1, 2), upd_kinds=(0, 1, 2, 6), tier='quick', q2_tier='thorough'):
+def machine_jobs(m, kinds=(0, 1, 2), upd_kinds_quick=(0, 2, 6), upd_kinds=(0, 1, 2, 6), tier='quick', q2_tier='thorough'):
     base = dict(tu=m.tu, defs=m.defs, unwind=m.unwind, objbits=12, timeout=900)
-    P = ['C01', 'C02', 'C03', 'C04', 'C13', 'C11']
     for e in ('proof_init', 'proof_exit_enter', 'proof_reset', 'proof_cfg_count'):
-        job(id='C.%s.%s' % (m.name, e[6:]), entry=e, props=P if e != 'proof_cfg_count' else ['C01', 'C02', 'C03', 'C04', 'C05'], tier=tier, carriers=[r'R_<.*>::initialEnter', r'R_<.*>::finalExit'] if e == 'proof_init' else [],
-            case_key='%s/%s' % (m.name, e[6:]), **base)
+        job(id='C.%s.%s' % (m.name, e[6:]), entry=e, props=['C01', 'C02', 'C03', 'C13', 'C11'] if e != 'proof_cfg_count' else ['C01', 'C02', 'C03', 'C04', 'C05'], tier=tier,
+            carriers=[r'R_<.*>::initialEnter', r'R_<.*>::finalExit'] if e == 'proof_init' else [], case_key='%s/%s' % (m.name, e[6:]), **base)
     for k in kinds:
         for d in range(1, m.n):
-            job(id='C.%s.imm.%s.d%d' % (m.name, KIND_NAMES[k], d), entry='step_immediate', key=[k, d], props=P, tier=tier, carriers=STEP_CARRIERS,
+            job(id='C.%s.imm.%s.d%d' % (m.name, KIND_NAMES[k], d), entry='step_immediate', key=[k, d], props=['C01', 'C02', 'C03', 'C04', 'C13', 'C11'], tier=tier, carriers=STEP_CARRIERS,
                 case_key='%s/immediate/%s/dest=%d' % (m.name, KIND_NAMES[k], d), **base)
     ncfg = m.count(0)
     for c in range(ncfg):
         act = m.active_set(c)
-        job(id='C.%s.upd.c%d.none' % (m.name, c), entry='step_update', key=[c, -1, 0, 0], props=P, tier=tier, carriers=[r'R_<.*>::update', r'R_<.*>::processRequest'],
+        job(id='C.%s.upd.c%d.none' % (m.name, c), entry='step_update', key=[c, -1, 0, 0], props=['C01', 'C02', 'C04', 'C11'], tier=tier, carriers=[r'R_<.*>::update', r'R_<.*>::processRequest'],
             case_key='%s/update/cfg=%d/no request' % (m.name, c), **base)
         deepest = max(act)            # quick tier: one issuer per configuration (the last active state in id order); thorough: every active state
         for i in act:
             if i == 0 and not m.root_stub: continue
             for k in upd_kinds:
                 for d in range(1, m.n):
-                    job(id='C.%s.upd.c%d.i%d.%s.d%d' % (m.name, c, i, KIND_NAMES[k], d), entry='step_update', key=[c, i, k, d], props=P, tier=tier if i == deepest else 'thorough',
+                    job(id='C.%s.upd.c%d.i%d.%s.d%d' % (m.name, c, i, KIND_NAMES[k], d), entry='step_update', key=[c, i, k, d], props=['C01', 'C02', 'C03', 'C04'], quick_for=['C02'],
+                        tier=tier if (i == deepest and k in upd_kinds_quick) else 'thorough',
                         carriers=[r'R_<.*>::update', r'FullControlBaseT<.*>::changeTo'], case_key='%s/update/cfg=%d/issuer=%d/%s/dest=%d' % (m.name, c, i, KIND_NAMES[k], d), **base)
         for e in ('step_order_update', 'step_order_react', 'step_order_query'):
             job(id='C.%s.%s.c%d' % (m.name, e[5:], c), entry=e, key=[c], props=['C05', 'C03', 'C11'], tier=tier,
                 carriers=[r'R_<.*>::update', r'R_<.*>::react', r'R_<.*>::query'] if e == 'step_order_react' else [], case_key='%s/%s/cfg=%d' % (m.name, e[5:], c), **base)
     for d1 in range(1, m.n):
         for d2 in range(1, m.n):
-            job(id='C.%s.q2.d%d.d%d' % (m.name, d1, d2), entry='step_queued2', key=[0, d1, 0, d2], props=['C01', 'C02', 'C03', 'C04', 'C11'], tier=q2_tier, carriers=[r'R_<.*>::changeTo'],
+            job(id='C.%s.q2.d%d.d%d' % (m.name, d1, d2), entry='step_queued2', key=[0, d1, 0, d2], props=['C01', 'C02', 'C04'], quick_for=['C02'], tier=q2_tier, carriers=[r'R_<.*>::changeTo'],
                 case_key='%s/queued pair/change %d then change %d' % (m.name, d1, d2), **base)
+def compatible(m, d1, d2):
+    a = d1
+    while a > 0:
+        b = d2
+        while b > 0:
+            if m.parents[a] == m.parents[b] and m.kinds[m.parents[a]] == 'C' and a != b: return False
+            b = m.parents[b]
+        a = m.parents[a]
+    return True
+def extra_jobs(m, tier='quick'):
+    base = dict(tu=m.tu, defs=m.defs, unwind=m.unwind, objbits=12, timeout=900)
+    ncfg = m.count(0)
+    for c in range(ncfg):
+        act = m.active_set(c)
+        for d in range(1, m.n):
+            job(id='C.%s.subf.c%d.d%d' % (m.name, c, d), entry='step_substitute_forever', key=[c, d, d, 1], props=['C04', 'C01', 'C03'], quick_for=['C04'], tier=tier if c == d % ncfg else 'thorough',
+                carriers=[r'R_<.*>::processTransitions', r'GuardControlT<.*>::cancelPendingTransitions'], case_key='%s/substitute in every round/cfg=%d/dest=%d' % (m.name, c, d), **base)
+            for g in range(1, m.n):
+                for is_entry in (1, 0):
+                    if is_entry == 0 and g not in act: continue          # an exit guard runs only for an active state
+                    for sd in range(1, m.n):
+                        if sd == d: continue
+                        quick = (g == d and is_entry == 1 and sd in (1, m.n - 1)) or (is_entry == 0 and g == max(act) and sd == 1 and d == m.n - 1)
+                        job(id='C.%s.sub.c%d.d%d.g%d%s.s%d' % (m.name, c, d, g, 'e' if is_entry else 'x', sd), entry='step_substitute', key=[c, d, g, is_entry, sd], props=['C04', 'C01', 'C02', 'C03'], quick_for=['C04'],
+                            tier=tier if quick else 'thorough', carriers=[r'R_<.*>::processTransitions', r'R_<.*>::approvedByGuards', r'RegistryT<.*>::restore'],
+                            case_key='%s/substitute/cfg=%d/dest=%d/guard=%d(%s)/instead=%d' % (m.name, c, d, g, 'entry' if is_entry else 'exit', sd), **base)
+    for d1 in range(1, m.n):
+        for d2 in range(1, m.n):
+            for d3 in range(1, m.n):
+                interesting = len({d1, d2, d3}) == 3 and not compatible(m, d2, d3) and compatible(m, d1, d3)
+                job(id='C.%s.q3.d%d.d%d.d%d' % (m.name, d1, d2, d3), entry='step_queued3', key=[d1, d2, d3], props=['C02', 'C01', 'C04'], quick_for=['C02'], tier=tier if interesting else 'thorough',
+                    carriers=[r'RegistryT<.*>::requestImmediate'], case_key='%s/queued triple/change %d, %d, %d' % (m.name, d1, d2, d3), **base)
 machine_jobs(M_RES, q2_tier='quick')
+extra_jobs(M_RES); extra_jobs(M_NEST)
 machine_jobs(M_NEST, q2_tier='quick')
-machine_jobs(M_ORTHO)
+machine_jobs(M_ORTHO, upd_kinds_quick=(0,))
+machine_jobs(M_SEL, kinds=(0, 1, 2, 3), upd_kinds_quick=(0, 3), upd_kinds=(0, 1, 2, 3, 6))
+
+# ------------------------------------------------------------------ C08 / C09 jobs on the sample machines
+def serial_jobs(m, tier='quick'):
+    base = dict(tu=m.tu, defs=m.defs, unwind=m.unwind, objbits=12, timeout=900)
+    ncfg = m.count(0)
+    for ka in range(-1, ncfg):
+        for kb in range(-1, ncfg):
+            job(id='C.%s.saveload.a%s.b%s' % (m.name, ka if ka >= 0 else 'off', kb if kb >= 0 else 'off'), entry='step_save_load', key=[ka, kb], props=['C08', 'C01', 'C03', 'C11'], quick_for=['C08'], tier=tier,
+                carriers=[r'RV_<.*>::save', r'RV_<.*>::load', r'R_<.*>::load', r'C_<.*>::deepSaveActive', r'C_<.*>::deepLoadRequested', r'BitWriteStreamT<.*>::write<', r'BitReadStreamT<.*>::read<'],
+                case_key='%s/save in cfg %d, load into cfg %d (-1 = not activated)' % (m.name, ka, kb), **base)
+def history_jobs(m, kinds=(0, 1, 2, 6), tier='quick'):
+    base = dict(tu=m.tu, defs=m.defs, unwind=m.unwind, objbits=12, timeout=900)
+    job(id='C.%s.history.enter' % m.name, entry='proof_history_enter', props=['C09', 'C03'], tier=tier, carriers=[r'RV_<.*>::replayEnter'], case_key='%s/replayEnter' % m.name, **base)
+    for k in kinds:
+        for d in range(1, m.n):
+            job(id='C.%s.history.%s.d%d' % (m.name, KIND_NAMES[k], d), entry='step_history_replay', key=[k, d], props=['C09', 'C01', 'C03'], quick_for=['C09'], tier=tier,
+                carriers=[r'R_<.*>::replayTransitions', r'R_<.*>::lastTransitionTo', r'R_<.*>::applyRequests', r'ControlT<.*>::pinLastTransition'], case_key='%s/history+replay/%s/dest=%d' % (m.name, KIND_NAMES[k], d), **base)
+serial_jobs(M_RES); serial_jobs(M_ORTHO, tier='thorough'); serial_jobs(M_NEST)
+history_jobs(M_RES); history_jobs(M_NEST); history_jobs(M_ORTHO, tier='thorough')
+
+# ------------------------------------------------------------------ C10 determinism (two-run contracts)
+for variant, defs in (('user_rng', {}), ('builtin_rng', {'VD_BUILTIN_RNG': None})):
+    for entry in ('proof_two_storages', 'proof_copy'):
+        for sroa in (True, False):
+            job(id='C10.%s.%s%s' % (variant, entry[6:], '' if sroa else '.unpromoted'), tu='tier_c/m_determinism.cpp', defs=defs, entry=entry, props=['C10', 'C11'], unwind=34, objbits=12, timeout=900, sroa=sroa,
+                tier='quick' if sroa else 'thorough', carriers=[r'InstanceT<.*>::InstanceT', r'CoreT<.*>::CoreT', r'R_<.*>::R_', r'RV_<.*>::RV_'],
+                case_key='determinism/%s/%s/%s' % (variant, entry[6:], 'sroa' if sroa else 'un-promoted IR'))
+
+# ------------------------------------------------------------------ Tier B: plan storage over symbolic contents (C07)
+PLAN_CARRIERS = [r'PlanT<.*>::append', r'PlanT<.*>::linkTask', r'PlanT<.*>::remove', r'PlanT<.*>::clearTasks', r'PlanT<.*>::Iterator::operator\+\+', r'PlanDataT<.*>::clear\(\)', r'TaskListT<.*>::emplace', r'TaskListT<.*>::remove']
+for tcap, payload, tier in ((1, False, 'quick'), (2, False, 'quick'), (3, False, 'quick'), (3, True, 'quick'), (4, False, 'thorough'), (4, True, 'thorough'), (6, False, 'thorough'), (2, True, 'thorough')):
+    defs = {'VP_TCAP': tcap}
+    if payload: defs['VP_PAYLOAD'] = None
+    for entry in ('proof_append', 'proof_remove', 'proof_iterate', 'proof_clear_tasks', 'proof_init_clear'):
+        job(id='B.plans.t%d%s.%s' % (tcap, '.int' if payload else '', entry[6:]), tu='tier_b/plans.cpp', defs=defs, entry=entry, props=['C07', 'C11'] + (['C14'] if payload and entry == 'proof_append' else []),
+            tier=tier, unwind=max(tcap, 3) + 4, unwindset={'verif_havoc.0': 4096}, objbits=11, timeout=900,
+            carriers=PLAN_CARRIERS + ([r'PayloadPlanT<.*>::append'] if payload else []), case_key='PlanDataT: 3 regions, task capacity %d, payload %s' % (tcap, 'int' if payload else 'void'))
